@@ -276,7 +276,7 @@ class NumpyMixin:
             i, j = z3.Int("i!t"), z3.Int("j!t")
             return st.alloc(HArr2(h.kind, h.n1, h.n0, z3.Lambda([i, j], z3.Select(h.data, j, i)), fresh=True))
         if attr == "dtype":
-            return Opaque("dtype:" + getattr(h, "kind", "struct"))
+            return DTypeV(ref, h)
         from .values import Bound
         return Bound(ref, Prim("ndarray." + attr))
 
@@ -506,6 +506,18 @@ class NumpyMixin:
         else:
             raise Unsupported("libm function " + name, node)
         return r
+
+
+class DTypeV:
+    """the dtype of an array value (field names only; numpy's dtype algebra is an assumed contract)"""
+
+    def __init__(self, ref, h):
+        self.ref, self.h = ref, h
+        self.tag = "dtype:" + getattr(h, "kind", "struct")
+
+    @property
+    def names(self):
+        return tuple(self.h.fields.keys()) if isinstance(self.h, HStruct) else None
 
 
 # pi as an uninterpreted positive real constant with loose rational bounds (enough for range reasoning)
